@@ -76,7 +76,7 @@ def chunk_program(rng, m, novmap):
             no = numel(P.nodes[other].shape)
             V = [[rng.choice([-1, 0, 1]) for _ in range(no)] for _ in range(p)]
             o = P.add_aff(lambda t, W=W, V=V: torch.tensor(W, dtype=t[0].dtype) @ t[0].reshape(-1)
-                          + torch.tensor(V, dtype=t[0].dtype) @ t[1].reshape(-1), [s, other], f"W@n{s}+V@n{other}",
+                          + torch.tensor(V, dtype=t[1].dtype) @ t[1].reshape(-1), [s, other], f"W@n{s}+V@n{other}",
                           has_saved=True)[0]
         else:
             o = P.add_aff(lambda t, W=W: torch.tensor(W, dtype=t[0].dtype) @ t[0].reshape(-1), [s], f"W{p}@n{s}",
